@@ -341,8 +341,10 @@ static RunResult qr_execute(const Plan &plan)
 			if (!bij) { violate("C02", "secret_not_bijective", "freshly generated stack secret is not a bijection"); break; }
 			if (cyclic) for (size_t i = 0; i < n; i++) if (ss[(i + off) % n].first != i) { violate("C02", "rotation_offset_wrong", "rotation secret does not shift by the reported offset"); break; }
 			if (!res.ok()) break;
+			// the output object is sometimes one that was used before and still holds other (and more) cards
+			if ((op.arg(1) + (int64_t)oi) % 3 == 0) { const StackRec &old = stacks[(size_t)(op.arg(1) + 1) % stacks.size()]; out = old.s; for (size_t q = 0; q < 2 && q < old.s.size(); q++) out.push(old.s[q]); res.cnt["probe.mix_into_used_stack"]++; }
 			tmcg.TMCG_MixStack(sr.s, out, ss, ring, tap);
-			if (out.size() != n) { violate("C02", "mix_changes_size", "mixed stack has another size"); break; }
+			if (out.size() != n) { violate("C02", "mix_changes_size", "mixed stack has another size (" + std::to_string(out.size()) + " instead of " + std::to_string(n) + ")"); break; }
 			std::vector<size_t> nt(n); for (size_t i = 0; i < n; i++) nt[i] = sr.types[ss[i].first];
 			sr.s = out; sr.types = nt; res.cnt[cyclic ? "probe.rotations" : "probe.shuffles"]++;
 			// export/import of the secret (C11 wire monitor) and refusal of a repeated index
